@@ -441,11 +441,22 @@ func (propC03) Check(k *Kernel, cov *Coverage) *Violation {
 	}
 	// (d) delivery matrix and wire agreement
 	shapes := map[string]string{}
+	stale := map[*CallState]bool{}
 	var conflict []*CallState
 	for _, c := range k.Calls {
 		if noteOf(c.Op, "conflict") == "1" {
 			conflict = append(conflict, c)
 			continue
+		}
+		if noteOf(c.Op, "client") == "openapi" && c.Op.Raw != nil {
+			// a replayed plan carries the request a reader built from the document of the tree it
+			// was drawn on; if the current document yields another request line, the op says
+			// nothing about the current tree (the fresh exploration draws it anew)
+			cur := openAPIRequest(rpc, op, c.planReq(k), nil)
+			if cur == nil || cur.Verb != c.Op.Raw.Verb || cur.Target != c.Op.Raw.Target {
+				stale[c] = true
+				continue
+			}
 		}
 		ck := clientKind(c)
 		pair := ck + ">" + c.Op.Server
@@ -523,7 +534,7 @@ func (propC03) Check(k *Kernel, cov *Coverage) *Violation {
 		cov.Tuple(k.W.Name, rpc.Key, "url-vs-body", "servers-agree")
 	}
 	for _, c := range k.Calls {
-		if len(c.Wire) == 0 || noteOf(c.Op, "conflict") == "1" {
+		if len(c.Wire) == 0 || noteOf(c.Op, "conflict") == "1" || stale[c] {
 			continue
 		}
 		u, err := url.ParseRequestURI(c.Wire[0].Target)
